@@ -349,6 +349,8 @@ class Check:
     def finish(self, level, coverage, assumptions):
         for k in self.known_hits:
             print("KNOWN-FINDING: property=%s %s" % (self.pid, k.get("what", "")))
+        if getattr(self, "leanchecker", None) and isinstance(coverage, dict):
+            coverage["leanchecker"] = self.leanchecker
         seen = set()
         found = [v for v in self.violations if not v[1]]
         # a concrete failing input is the primary report; broken proofs / ties are then context
@@ -367,6 +369,24 @@ class Check:
         json.dump(ev, open(os.path.join(EVID, "%s.json" % self.pid), "w"), indent=1)
         sys.stdout.flush()
         return 1 if seen else 0
+
+
+def pq_closure(modules):
+    """the project's own modules (PQ.*) that the given modules import, transitively, themselves included"""
+    seen, todo = [], list(modules)
+    while todo:
+        m = todo.pop()
+        if m in seen or not (m == "PQ" or m.startswith("PQ.")):
+            continue
+        f = os.path.join(LEAN, *m.split(".")) + ".lean"
+        if not os.path.exists(f):
+            continue
+        seen.append(m)
+        for line in open(f):
+            mm = re.match(r"\s*(?:public\s+)?import\s+(\S+)", line)
+            if mm:
+                todo.append(mm.group(1))
+    return sorted(seen)
 
 
 def proof_stage(chk, module, theorems, extra_targets=(), audit_imports=()):
@@ -392,6 +412,14 @@ def proof_stage(chk, module, theorems, extra_targets=(), audit_imports=()):
         else:
             res["axioms"][t] = a
             res["discharged"] += 1
+    if chk.tier == "thorough":
+        # independent re-check of the compiled theorem modules by the toolchain's stand-alone kernel replayer
+        mods = pq_closure([module] + list(audit_imports))
+        p = sh(["lake", "env", "leanchecker"] + mods, cwd=LEAN, check=False)
+        res["leanchecker"] = {"modules": mods, "exit": p.returncode}
+        chk.leanchecker = res["leanchecker"]
+        if p.returncode != 0:
+            res["failed"].append("leanchecker rejects %s: %s" % (" ".join(mods), (p.stdout or "")[-600:]))
     res["ok"] = (not res["failed"]) and not hits
     return res
 
@@ -400,6 +428,8 @@ def verdict(chk, cov, pr, prop_fail, tie_breaks, pid, tie_name, assumptions, lev
     """Common violation protocol: property failures found on the implementation are violations with
     the failing input as replay (unless listed in known_findings.json, matched on `key`); a broken
     proof / translator / tie without a failing input is reported with no-failing-input-found."""
+    if "leanchecker" in pr:
+        cov["leanchecker"] = pr["leanchecker"]
     groups = {}
     for f in prop_fail:
         k = json.dumps(f.get("key"), sort_keys=True) if f.get("key") is not None else f.get("clause", "")
